@@ -245,7 +245,8 @@ def do_fit(S, op, i, base_seed, check):
     intercept = np.array(getattr(model, "intercept_", 0.0), dtype=float)
     S.log.update(coef.tobytes() + intercept.tobytes())
     rec = dict(coef=coef, intercept=intercept, container=container, op=i, rng=rng, data=op["data"],
-               labels=labels, n_iter=getattr(model, "n_iter_", None), seam_outer=seams.n_argpartition)
+               labels=labels, n_iter=getattr(model, "n_iter_", None), seam_outer=seams.n_argpartition,
+               no_work=bool(op.get("tightened")) and not seams.n_argpartition and not seams.n_epochs)
     S.last_fit[mid] = rec
     if op.get("judge", True):
         judge_fit(S, model, mid, cls, ds, Xd, yc, rec, seams, warned_nonconv, feat0, i, check, container)
@@ -329,7 +330,9 @@ def judge_fit(S, model, mid, cls, ds, Xd, yc, rec, seams, warned_nonconv, feat0,
     # single precision data: the solver works in float32
     f32_allow = (2e-5 * scale) if f32 else 0.0
     # ---- C04-like feasibility for estimators with constraints
-    if pr.pen.has_constraint and not pr.pen.feasible(w):
+    # (a warm-started fit that stops at its first optimality test returns the coefficients it
+    # was started from: see the solver-level oracle)
+    if pr.pen.has_constraint and not pr.pen.feasible(w) and not rec.get("no_work"):
         S.add(["C04", "C11"], "feasible", sig0 + ("infeasible",), dict(min=float(np.min(w))), dict(feat0), i)
     # ---- C11 (a): stationarity for the documented objective
     if claimed and crit in ("subdiff", "fixpoint") and not f32:
@@ -362,7 +365,7 @@ def judge_fit(S, model, mid, cls, ds, Xd, yc, rec, seams, warned_nonconv, feat0,
                        method=params.get("method"), l1_ratio=params.get("l1_ratio")), i)
     # ---- C11 (b): optimal when convex (witness optimum)
     if claimed and pr.pen.convex and cls in E.CONVEX_EST | {"GeneralizedLinearEstimator"} \
-            and pr.loss.name not in ("Pinball",) and op_wants_optimum(S, i):
+            and op_wants_optimum(S, i):
         wz, bz, Pz = reference_witness(pr, hint=(w, b))
         P = pr.objective(w, b)
         dist = float(np.sum(np.abs(w - wz)) + np.sum(np.abs(np.asarray(b) - np.asarray(bz))))
